@@ -31,7 +31,7 @@ ASSUMPTIONS = [
 ]
 FLOORS = {"cases:twin-registered": 0.2, "cases:subject-detached": 0.12, "cases:tuple-child": 0.15}
 
-CHANGES = ["prop", "noncompare", "child", "tuple", "origin"]
+CHANGES = ["prop", "noncompare", "child", "tuple", "origin", "twin_child"]
 
 
 def _fields(x: Any) -> dict[str, dataclasses.Field]:
@@ -63,6 +63,17 @@ def _make_change(x: Any, kind: str, n: int, sources: list) -> dict | None:
                 new = M.cls("LeafA")(v=60 + n % 3)
                 return {f.name: (cur[1:] + (new,)) if n % 2 and cur else (new, *cur)}
         return None
+    if kind == "twin_child":
+        # a child replaced by a new object of the same content and origin (the new parent is == to the old
+        # one and takes over its id, but holds other objects)
+        for f in M.child_fields(cn) if cn in M.BY_NAME else []:
+            cur = getattr(x, f.name)
+            if f.kind in ("one", "opt") and cur is not None:
+                return {f.name: type(cur)(**{g.name: getattr(cur, g.name) for g in dataclasses.fields(cur) if g.init})}
+            if f.kind == "tuple" and cur:
+                c0 = cur[0]
+                return {f.name: (type(c0)(**{g.name: getattr(c0, g.name) for g in dataclasses.fields(c0) if g.init}), *cur[1:])}
+        return None
     if kind == "origin":
         cands = [["code", 1, 2, 5], ["gen", 2], ["xml", 3, "/z"], ["no"]]
         cur = og.origin_spec_of(x.origin, sources)
@@ -88,6 +99,7 @@ def check_case(data: dict, lab: Labels) -> None:
     sources = b.sources
     nodes_e = T.nodes_preorder(root_e)
     want = {"noncompare": ("Vals", "SerVals"),
+            "twin_child": tuple(c.name for c in M.TABLE if M.child_fields(c.name)),
             "child": tuple(c.name for c in M.TABLE if any(f.kind in ("one", "opt") and "Base" in f.classes for f in M.child_fields(c.name))),
             "tuple": tuple(c.name for c in M.TABLE if any(f.kind == "tuple" for f in M.child_fields(c.name))),
             }.get(CHANGES[data["c1"] % len(CHANGES)])
@@ -123,8 +135,9 @@ def check_case(data: dict, lab: Labels) -> None:
         lab.tag("subject-detached")
     if twins and data.get("subject_is_twin"):
         # the subject is the later twin (its id carries a suffix while the base id may be free again)
-        x = twins[0]
+        x = twins[data["n"] % len(twins)]
         lab.tag("subject-is-suffixed-twin")
+        lab.tag_if(len(twins) >= 10, "ten-or-more-twins")
     lab.tag_if(bool(twins), "twin-registered")
     has_tuple = any(i is not None for _, _, i in T.live_children(x))
     lab.tag_if(has_tuple, "tuple-child")
@@ -189,6 +202,7 @@ def check_case(data: dict, lab: Labels) -> None:
             if isinstance(n, ASTNode) and id(n) not in {id(a) for a in all_live}:
                 all_live.append(n)
     x_registered = registered(x)
+    before_children = list(x.children) if "children" not in {f.name for f in dataclasses.fields(x)} else None  # (asked before the operation)
     sig_x = _sig(x, sources)
     twin_registered = any(registered(n) and n is not x and _sig(n, sources) == sig_x for n in all_live)
 
@@ -208,6 +222,14 @@ def check_case(data: dict, lab: Labels) -> None:
         elif f.init:
             require(getattr(n, f.name) is getattr(x, f.name), "replace-untouched-field-identity", f.name)
     require(ASTNode.get_any(n.id) is n, "replace-result-registered", n.id)
+    if before_children is not None:
+        own = [c for c, _, _ in T.live_children(n)]
+        got_ch = n.children
+        require(len(got_ch) == len(own) and all(a is b_ for a, b_ in zip(got_ch, own)), "replace-result-children",
+                "the new node's `children` are not the objects its own fields hold")
+        again = x.children
+        require(len(again) == len(before_children) and all(a is b_ for a, b_ in zip(again, before_children)),
+                "replace-changed-original-children", "")
     for m in all_live:
         if registered(m) and m is not n:
             require(ASTNode.get_any(m.id) is m, "replace-evicted-other-node", f"{type(m).__name__} {m.id}")
@@ -232,13 +254,13 @@ def st_case(ctx: Ctx):
         {
             "tree": st.one_of(g.inner_tree(), g.inner_tree(), g.tree()),
             "subject": st.integers(0, 60),
-            "twins": st.sampled_from([0, 0, 1, 2]),
+            "twins": st.sampled_from([0, 0, 1, 2, 1, 2, 12]),
             "detach": st.sampled_from([False, False, True]),
             "detach_first": st.booleans(),
             "subject_is_twin": st.sampled_from([False, False, True]),
             "op": st.sampled_from(["duplicate", "replace", "replace", "dc_replace"]),
-            "c1": st.integers(0, 4),
-            "c2": st.integers(0, 4),
+            "c1": st.integers(0, 5),
+            "c2": st.integers(0, 5),
             "two": st.booleans(),
             "n": st.integers(0, 100),
         }
